@@ -72,6 +72,7 @@ type Node struct {
 	lastIncN int
 	everStarted bool
 	handledIDs []int // RPCs this node handled during the current step
+	handledClean bool
 }
 
 // ClientOp is one API call made by a simulated client.
@@ -363,6 +364,7 @@ func (c *Cluster) Crash(id string) {
 
 func (c *Cluster) finishCrash(n *Node, ev string) {
 	n.Up = false
+	n.inc.Unpark()
 	n.Trans.kill()
 	n.FSM.SetGated(false)
 	r := n.Raft
@@ -382,6 +384,7 @@ func (c *Cluster) Shutdown(id string) {
 	}
 	r := n.Raft
 	c.Tr.Emit("shutdown", n.ID, M{"inc": n.incN})
+	n.inc.Unpark()
 	go func() { _ = r.Shutdown().Error() }()
 	synctest.Wait()
 	n.inc.detach()
@@ -459,6 +462,9 @@ func (c *Cluster) emitState(cause string, n *Node, force bool) {
 	kv := M{"cause": cause, "st": st}
 	if len(hs) > 0 {
 		kv["h"] = hs
+		// "clean": this step was exactly one request handed to an idle server, so the
+		// previous projection of the server is the handler's pre-state
+		kv["clean"] = len(hs) == 1 && n.handledClean && cause == "deliver"
 	}
 	c.Tr.Emit("state", n.ID, kv)
 }
@@ -562,7 +568,7 @@ func (c *Cluster) logJSON(d *Disk) M {
 func (c *Cluster) entryJSON(l *raft.Log) []any {
 	id := payloadID(l)
 	if l.Type == raft.LogConfiguration {
-		id = "cfg:" + c.cfgStr(raft.DecodeConfiguration(l.Data))
+		id = c.cfgStr(raft.DecodeConfiguration(l.Data))
 	}
 	return []any{l.Term, typeStr(l.Type), id}
 }
@@ -625,6 +631,7 @@ func (c *Cluster) onHandled(r *Rpc, tgt *SimTransport) {
 	}
 	c.mu.Lock()
 	n.handledIDs = append(n.handledIDs, r.ID)
+	n.handledClean = r.clean
 	c.mu.Unlock()
 	c.Tr.Emit("handle", r.Dst, kv)
 }
